@@ -453,12 +453,13 @@ func (u *Unit) runRoot() {
 	if u.failed != "" || u.discovery || u.noObls {
 		return
 	}
+	atReturnSeen := map[string]bool{}
 	defer func() {
 		if u.spec == nil || u.failed != "" {
 			return
 		}
 		for _, cl := range u.spec.Asserts {
-			if cl.Kind == "assert@return" && !atReturnSeenGlobal(u, cl) {
+			if cl.Kind == "assert@return" && !atReturnSeen[clauseKey(cl)] && !atReturnSeenGlobal(u, cl) {
 				u.failed = fmt.Sprintf("%s:%d: assert @return clause %s names variables that are in scope at no return", cl.File, cl.Line, clauseKey(cl))
 			}
 		}
@@ -466,7 +467,6 @@ func (u *Unit) runRoot() {
 	canaryLen := len(u.body) // before the postcondition checks (a failed check is assumed afterwards)
 	// returns
 	var retPcs []string
-	atReturnSeen := map[string]bool{}
 	for _, r := range fr.rets {
 		if r.st.dead {
 			continue
